@@ -28,6 +28,7 @@ const STAGES: &[(&str, StageFn)] = &[
     ("c01.bytes", c01::bytes),
     ("c01.longruns", c01::longruns),
     ("c01.gaps", c01::gaps),
+    ("c01.gigabases", c01::gigabases),
     ("c02.codes", c02::codes),
     ("c02.sampled", c02::sampled),
     ("c02.streams", c02::streams),
@@ -67,6 +68,8 @@ const STAGES: &[(&str, StageFn)] = &[
     ("c09.random", c09::random),
     ("c09.longruns", c09::longruns),
     ("c09.gaps", c09::gaps),
+    ("c09.gigabases", c09::gigabases),
+    ("c18.gigabases", c09::gigabases),
     ("c18.gaps", c09::gaps),
     ("c18.longruns", c09::longruns),
     ("c10.lib", c10::lib),
